@@ -479,4 +479,79 @@ def r3_5(run):
     r6_5(run)
 
 
-RULES = [("R3.1", r3_1), ("R3.2", r3_2), ("R3.3", r3_3), ("R3.4", r3_4), ("R3.5", r3_5)]
+GROUPING = ("._sum_by_group", "._sum_by_group_np", "._sum_by_group_numba", "._sum_by_group_sorted")
+
+
+def _is_grouping(t):
+    """a call whose first output lists every key once, in increasing order (the package's group sums, np.unique)"""
+    return t[0] == "call" and ((t[1][0] == "f" and t[1][1].endswith(GROUPING)) or t[1] == ("x", "numpy.unique"))
+
+
+def _group_keys_arg(t):
+    """the array of keys a grouping call groups by"""
+    if t[1] == ("x", "numpy.unique"):
+        return t[2][0] if t[2] else None
+    a = t[2]
+    if t[1][1].endswith("._sum_by_group"):
+        return a[1] if len(a) > 1 else None        # _sum_by_group(use_numba, indices, *values)
+    return a[0] if a else None
+
+
+def _node_accumulators(ix):
+    """the functions that put values of several user rows into one node row (fixed pressures / temperatures, loads)"""
+    out = [ix.func("pandapipes.component_models.component_toolbox.set_fixed_node_entries")]
+    cf = ix.cls("pandapipes.component_models.abstract_models.const_flow_models.ConstFlow")
+    if "create_pit_node_entries" in cf.methods:
+        out.append(cf.methods["create_pit_node_entries"])
+    return out
+
+
+def accumulation_sites(ix):
+    """[(function, store event, rows term, key-unique?, read-modify-write?, grouping call or None)] for the stores into pit rows
+    that are selected by an index array"""
+    from ..arrnf import ANF, FULL, C, base_of, key as tkey, walk
+    sites = []
+    for f in _node_accumulators(ix):
+        r = ANF(ix, f, strip=False).run()
+        for e in r.stores():
+            if len(e.index) != 2 or e.index[0] == FULL or e.index[0][0] in ("slice", "c", "loop"):
+                continue
+            rows = e.index[0]
+            if rows[0] in ("cmp",) or (rows[0] == "call" and rows[1] == ("x", "numpy.isin")) or (rows[0] == "u" and rows[1] == "~"):
+                continue            # a boolean mask selects every row at most once
+            # rows = <index lookup>[<labels>]: the lookup is injective, so the rows repeat iff the labels do
+            labels = rows[2][0] if rows[0] == "idx" and len(rows[2]) == 1 else rows
+            grp = None
+            if labels[0] == "proj" and _is_grouping(labels[1]) and labels[2] == 0:
+                grp = labels[1]
+            elif _is_grouping(labels) and labels[1] == ("x", "numpy.unique") and not labels[3]:
+                grp = labels
+            unique = grp is not None or (labels[0] == "call" and labels[1] == ("x", "numpy.arange"))
+            base = base_of(e.base)
+            rmw = bool(e.aug) or any(x[0] == "idx" and len(x[2]) == 2 and tkey(x[2][0]) == tkey(rows) and tkey(x[2][1]) == tkey(e.index[1])
+                                     and tkey(base_of(x[1])) == tkey(base) for x in walk(e.value))
+            sites.append((f, e, rows, unique, rmw, grp))
+    return sites
+
+
+def r3_6(run):
+    """several elements may prescribe a value at one junction (two external grids, an external grid and a circulation pump): what
+    ends up in the junction's row must account for all of them.  A numpy store `pit[rows, c] = g(pit[rows, c], v)` or `pit[rows, c] += v`
+    evaluates the right-hand side once and writes each row once, so with a repeated row only the last entry survives: every such
+    read-modify-write uses rows that are unique by construction (the keys of a group sum / np.unique, passed through an index lookup)"""
+    ix = run.index
+    n = 0
+    for f, e, rows, unique, rmw, grp in accumulation_sites(ix):
+        if not rmw:
+            continue
+        n += 1
+        run.analysed(f)
+        from ..arrnf import show as tshow
+        run.ob("%s|%s|accumulates-on-unique-rows" % (f.short, tshow(e.index[1])[:24]), unique,
+               "the rows of the read-modify-write store are the keys of a group sum (each junction once)", run.where(f, e.node),
+               detail=None if unique else "rows: %s" % tshow(rows)[:160])
+    run.stat("read_modify_write_stores_through_index_arrays", n)
+    run.floor(3)
+
+
+RULES = [("R3.1", r3_1), ("R3.2", r3_2), ("R3.3", r3_3), ("R3.4", r3_4), ("R3.5", r3_5), ("R3.6", r3_6)]
